@@ -285,9 +285,14 @@ def run(ctx):
         # ---- C05: sync_wait as the outermost driver - for behaviours in which everything completes inside start(), the value
         # returned / exception thrown / nullopt must be the channel and payload Senders.tla predicts for the outer receiver
         if prop == "C05" and sw_every:
-            swb = [(x, b) for x, b in enumerate(behaviours)
-                   if len(b["steps"]) == 1 and b["steps"][0]["k"] == "S" and len(b["steps"][0]["exp"]["root"]) == 1
-                   and all(m["inl"] for m in b["cfg"]["mode"].values()) and not b["cfg"].get("stopIn")]
+            swb, seen_sw = [], set()
+            for x, b in enumerate(behaviours):
+                if (b["steps"] and b["steps"][0]["k"] == "S" and len(b["steps"][0]["exp"]["root"]) == 1
+                        and all(m["inl"] for m in b["cfg"]["mode"].values()) and not b["cfg"].get("stopIn")):
+                    key = (b["cfg"]["shape"], json.dumps(b["cfg"]["mode"], sort_keys=True), b["cfg"].get("throwAt"))
+                    if key not in seen_sw:
+                        seen_sw.add(key)
+                        swb.append((x, b))
             swp = os.path.join(ctx.work, "sw_behaviours.ndjson")
             with open(swp, "w") as f:
                 for i, (x, b) in enumerate(swb):
